@@ -1,5 +1,5 @@
 //! C01 / C06 / C13 / C14 / C18: prediction on seeded random models against the brute-force linear model.
-use crate::gen::{gen_model, gen_text, reference_scores, reference_tags, ModelData, Rng};
+use crate::gen::{gen_model, gen_text, gen_text_from_model, reference_scores, reference_tags, ModelData, Rng};
 use std::panic::{catch_unwind, AssertUnwindSafe};
 use vaporetto::{CharacterBoundary as B, Model, Predictor, Sentence};
 
@@ -50,8 +50,9 @@ pub fn case(seed: u64, with_tags: bool, roundtrip: bool, check_tags: bool) -> Op
         18 => { md.char_ngram_model.0.clear(); md.type_ngram_model.0.clear(); }
         _ => {}
     }
-    for t in 0..6 {
-        let text = gen_text(&mut r, 12);
+    for t in 0..8 {
+        // six random texts, then two assembled from the model's own strings
+        let text = if t < 6 { gen_text(&mut r, 12) } else { gen_text_from_model(&mut r, &md, 14) };
         let got = catch_unwind(AssertUnwindSafe(|| run_real(&md, &text, with_tags, roundtrip)));
         let got = match got {
             Err(_) => return Some(format!("panic on text #{t} {:?}", text)),
